@@ -46,6 +46,7 @@ func ruleMenu() []ruleInst {
 	}
 	for _, r := range []string{"required", "in=(a/1/中)", "in=(1/2/1.5)", "include=(a)", "include=(1/ )", "phone", "email", "idcard", "ip", "ipv4", "ipv6", "year", "year2month", "date", "datetime",
 		"year2month=/", "date=/", "int", "ints", "ints=-", "float", "re='^a+$'", "re='^\\d$'", "unique", "json", "prefix=a", "suffix=1", "prefix=中", "file", "dir",
+		"ints= ", "prefix=a ", "suffix= a", "suffix=. ", "include=( )", "in=(a / a)", "prefix= ",
 		"in=(1+1/100%/a%41)", "include=(+)", "include=(%4)", "prefix=+", "suffix=%", "re='^\\d\\+\\d$'"} {
 		add(r)
 	}
@@ -73,6 +74,7 @@ func valueMenu() []val {
 	enum.Strings([]string{"a", "1", "中", " ", "/", "-", "."}, 3, func(s string) { out = append(out, val{fmt.Sprintf("%q", s), rv(s)}) })
 	for _, s := range []string{"13800138000", "a@b.cn", "1.2.3.4", "::1", "2021", "2021-09", "2021/09", "2021-09-28", "2021/09/28", "2021-09-28 23:00:00", "12", "1.5", `{"a":1}`, "1,2,3", "1-2-3", "1,1",
 		"110101199003074514", "aaaa", "hello world", "a b", " a", "a ", "中文 a",
+		"1 2 3", "a b", " a", "a. ", "x a", "a ", "Mr. x", "1,2", "a /",
 		"1+1", "+8613800138000", "100%", "a%41", "%", "+", "a+b%2Bc", "1 1", "aA", "%%", "1%2B1"} {
 		out = append(out, val{fmt.Sprintf("%q", s), rv(s)})
 	}
@@ -179,6 +181,13 @@ func run(c *runner.Ctx) {
 		return valid.Struct(p.Interface())
 	}})
 
+	// Var right after a Var call that was rejected before validation (unsupported source, other rules)
+	cars = append(cars, carrierFn{"var-after-rejected-var", anyV, func(v reflect.Value, rl string) error {
+		_ = valid.Var(map[string]int{"a": 1}, "phone|zz", "le=-9|zz")
+		_ = valid.Var(nil, "email|zz")
+		return valid.Var(v.Interface(), rl)
+	}})
+	// rules with a significant leading / trailing space in their argument survive only when nothing trims the rule text
 	// rule lists: every single rule, and every ordered pair from a reduced menu (quick) / larger menu (thorough)
 	type rlist struct {
 		text string
@@ -188,6 +197,12 @@ func run(c *runner.Ctx) {
 	var lists []rlist
 	for _, r := range rules {
 		lists = append(lists, rlist{r.text + "|m1", []string{"m1"}, r.name})
+	}
+	// the bare rule text as well (default wording; the rule text is then the last thing in a tag / rule string)
+	for _, r := range rules {
+		if strings.HasSuffix(r.text, " ") || strings.Contains(r.text, "= ") || r.name == "ints" || r.name == "in" || r.name == "prefix" || r.name == "suffix" || r.name == "include" {
+			lists = append(lists, rlist{r.text, nil, r.name + "-bare"})
+		}
 	}
 	pairMenu := []string{"required", "to=1~3", "gt=2", "eq=2", "in=(a/1/中)", "phone", "int", "re='^a+$'", "date", "prefix=a", "unique", "json"}
 	if c.Thorough() {
